@@ -110,7 +110,7 @@ def build(want_engines=None, quiet=True):
         # keep the cache small: remove other hashes (disk is limited)
         for d in os.listdir(BUILD_ROOT):
             p = os.path.join(BUILD_ROOT, d)
-            if d != hid and os.path.isdir(p):
+            if d != hid and d != "run" and os.path.isdir(p):   # "run" holds the working files of checks in progress
                 shutil.rmtree(p, ignore_errors=True)
         log = []
         incs = ["-I" + os.path.join(REPO, "src"), "-I" + HARNESS, "-I" + os.path.join(REPO, "src", "lib_common")]
